@@ -3,20 +3,20 @@
    panics; the lookup order of names; each run sees its own object.
    Complete proofs only; no axioms. *)
 From Coq Require Import Floats Lia.
-From EF Require Import Model.Base Model.Value Model.Env Model.Reflect Model.VM Model.Api.
+From EF Require Import Model.Base Gen.Tables Model.Value Model.Env Model.Reflect Model.VM Model.Api.
 Open Scope N_scope.
 
 (* ------------------------------------------------------------------ *)
 (* scalars *)
 
-Lemma scalars_lossless : forall o fuel z f s b u bits,
-  to_object o (S fuel) (HInt 0 z) = Some (CVal (VInt z)) /\
-  to_object o (S fuel) (HInt 64 z) = Some (CVal (VInt z)) /\
-  to_object o (S fuel) (HFloat bits f) = Some (CVal (VFloat f)) /\
-  to_object o (S fuel) (HString s) = Some (CVal (VStr s)) /\
-  to_object o (S fuel) (HBool b) = Some (CVal (VBool b)) /\
-  to_object o (S fuel) (HTime u) = Some (CVal (VInt u)) /\
-  to_object o (S fuel) HNil = Some (CVal VNull).
+Lemma scalars_lossless : forall o fuel depth z f s b u bits,
+  to_object o (S fuel) depth (HInt 0 z) = Some (CVal (VInt z)) /\
+  to_object o (S fuel) depth (HInt 64 z) = Some (CVal (VInt z)) /\
+  to_object o (S fuel) depth (HFloat bits f) = Some (CVal (VFloat f)) /\
+  to_object o (S fuel) depth (HString s) = Some (CVal (VStr s)) /\
+  to_object o (S fuel) depth (HBool b) = Some (CVal (VBool b)) /\
+  to_object o (S fuel) depth (HTime u) = Some (CVal (VInt u)) /\
+  to_object o (S fuel) depth HNil = Some (CVal VNull).
 Proof. intros. repeat split. Qed.
 
 Lemma filter_map_all : forall (l : list hostval) (vs : list value),
@@ -27,21 +27,34 @@ Proof.
   - rewrite Hh, IH. reflexivity.
 Qed.
 
-Lemma slices_lossless : forall o fuel (l : list hostval) (vs : list value),
+Lemma slices_lossless : forall o fuel depth (l : list hostval) (vs : list value),
   Forall2 (fun h v => slice_elem h = Some v) l vs ->
-  to_object o (S fuel) (HSlice l) = Some (CVal (VArray vs)).
+  to_object o (S fuel) depth (HSlice l) = Some (CVal (VArray vs)).
 Proof.
-  intros o fuel l vs H. cbn [to_object]. rewrite (filter_map_all l vs H). reflexivity.
+  intros o fuel depth l vs H. cbn [to_object]. rewrite (filter_map_all l vs H). reflexivity.
 Qed.
 
-Lemma unsupported_is_null : forall o fuel bits z h,
-  to_object o (S fuel) (HUint bits z) = Some (CVal VNull) /\
-  to_object o (S fuel) (HInt 8 z) = Some (CVal VNull) /\
-  to_object o (S fuel) (HPtr h) = Some (CVal VNull) /\
-  to_object o (S fuel) HNilPtr = Some (CVal VNull) /\
-  to_object o (S fuel) HOther = Some (CVal VNull) /\
-  to_object o (S fuel) (HIface h) = Some (CVal VNull).
+Lemma unsupported_is_null : forall o fuel depth bits z h,
+  to_object o (S fuel) depth (HUint bits z) = Some (CVal VNull) /\
+  to_object o (S fuel) depth (HInt 8 z) = Some (CVal VNull) /\
+  to_object o (S fuel) depth (HPtr h) = Some (CVal VNull) /\
+  to_object o (S fuel) depth HNilPtr = Some (CVal VNull) /\
+  to_object o (S fuel) depth HOther = Some (CVal VNull) /\
+  to_object o (S fuel) depth (HIface h) = Some (CVal VNull).
 Proof. intros. repeat split. Qed.
+
+(* ------------------------------------------------------------------ *)
+(* maps nested deeper than the machine's nesting limit are not followed: they read as null
+   (a Go map can contain itself; the conversion is bounded all the same) *)
+
+Lemma too_deep_is_null : forall o fuel depth l kk l',
+  max_call_depth <= depth ->
+  to_object o (S fuel) depth (HMapIface l) = Some (CVal VNull) /\
+  to_object o (S fuel) depth (HMapOther kk l') = Some (CVal VNull).
+Proof.
+  intros o fuel depth l kk l' H. apply N.leb_le in H.
+  split; cbn [to_object]; rewrite H; reflexivity.
+Qed.
 
 (* ------------------------------------------------------------------ *)
 (* converting never panics *)
@@ -49,12 +62,12 @@ Proof. intros. repeat split. Qed.
 Section Panics.
 Variable o : stdlib.
 
-Definition go_iface (f : nat) :=
+Definition go_iface (f : nat) (depth : N) :=
   fix go (l : list (str * hostval)) (acc : list (value * value)) : option conv :=
     match l with
     | [] => Some (CVal (VHash acc))
     | (k, x) :: l' =>
-        match to_object o f x with
+        match to_object o f (depth + 1) x with
         | Some (CVal v) =>
             match hash_put o acc (2, k) (VStr k) v with
             | Some acc' => go l' acc'
@@ -65,12 +78,12 @@ Definition go_iface (f : nat) :=
         end
     end.
 
-Definition go_other (f : nat) :=
+Definition go_other (f : nat) (depth : N) :=
   fix go (l : list (hostval * hostval)) (acc : list (value * value)) : option conv :=
     match l with
     | [] => Some (CVal (VHash acc))
     | (k, x) :: l' =>
-        match to_object o f k, to_object o f x with
+        match to_object o f (depth + 1) k, to_object o f (depth + 1) x with
         | Some (CVal kv), Some (CVal v) =>
             match hash_key o kv with
             | None => None
@@ -86,33 +99,35 @@ Definition go_other (f : nat) :=
         end
     end.
 
-Lemma to_object_iface : forall f l, to_object o (S f) (HMapIface l) = go_iface f l [].
-Proof. reflexivity. Qed.
+Lemma to_object_iface : forall f depth l, depth < max_call_depth ->
+  to_object o (S f) depth (HMapIface l) = go_iface f depth l [].
+Proof. intros f depth l H. apply N.leb_gt in H. cbn [to_object]. rewrite H. reflexivity. Qed.
 
-Lemma to_object_other : forall f kk l, to_object o (S f) (HMapOther kk l) = go_other f l [].
-Proof. reflexivity. Qed.
+Lemma to_object_other : forall f depth kk l, depth < max_call_depth ->
+  to_object o (S f) depth (HMapOther kk l) = go_other f depth l [].
+Proof. intros f depth kk l H. apply N.leb_gt in H. cbn [to_object]. rewrite H. reflexivity. Qed.
 
-Lemma go_iface_no_panic : forall f,
-  (forall h, to_object o f h <> Some CPanic) ->
-  forall l acc, go_iface f l acc <> Some CPanic.
+Lemma go_iface_no_panic : forall f depth,
+  (forall h, to_object o f (depth + 1) h <> Some CPanic) ->
+  forall l acc, go_iface f depth l acc <> Some CPanic.
 Proof.
-  intros f IH. induction l as [|[k x] l IHl]; intro acc; cbn [go_iface].
+  intros f depth IH. induction l as [|[k x] l IHl]; intro acc; cbn [go_iface].
   - discriminate.
-  - fold (go_iface f). destruct (to_object o f x) as [[v|]|] eqn:E.
+  - fold (go_iface f depth). destruct (to_object o f (depth + 1) x) as [[v|]|] eqn:E.
     + destruct (hash_put o acc (2, k) (VStr k) v); [apply IHl|discriminate].
     + exfalso. exact (IH x E).
     + discriminate.
 Qed.
 
-Lemma go_other_no_panic : forall f,
-  (forall h, to_object o f h <> Some CPanic) ->
-  forall l acc, go_other f l acc <> Some CPanic.
+Lemma go_other_no_panic : forall f depth,
+  (forall h, to_object o f (depth + 1) h <> Some CPanic) ->
+  forall l acc, go_other f depth l acc <> Some CPanic.
 Proof.
-  intros f IH. induction l as [|[k x] l IHl]; intro acc; cbn [go_other].
+  intros f depth IH. induction l as [|[k x] l IHl]; intro acc; cbn [go_other].
   - discriminate.
-  - fold (go_other f).
-    destruct (to_object o f k) as [[kv|]|] eqn:Ek.
-    + destruct (to_object o f x) as [[v|]|] eqn:Ex.
+  - fold (go_other f depth).
+    destruct (to_object o f (depth + 1) k) as [[kv|]|] eqn:Ek.
+    + destruct (to_object o f (depth + 1) x) as [[v|]|] eqn:Ex.
       * destruct (hash_key o kv) as [[hk|]|].
         -- destruct (hash_put o acc hk kv v); [apply IHl|discriminate].
         -- apply IHl.
@@ -120,19 +135,23 @@ Proof.
       * exfalso. exact (IH x Ex).
       * discriminate.
     + exfalso. exact (IH k Ek).
-    + destruct (to_object o f x) as [[v|]|] eqn:Ex.
+    + destruct (to_object o f (depth + 1) x) as [[v|]|] eqn:Ex.
       * discriminate.
       * exfalso. exact (IH x Ex).
       * discriminate.
 Qed.
 
-Lemma conversion_never_panics_o : forall fuel h, to_object o fuel h <> Some CPanic.
+Lemma conversion_never_panics_o : forall fuel depth h, to_object o fuel depth h <> Some CPanic.
 Proof.
-  induction fuel as [|f IH]; intro h.
+  induction fuel as [|f IH]; intros depth h.
   - discriminate.
   - destruct h; try (cbn [to_object]; discriminate).
-    + rewrite to_object_iface. apply go_iface_no_panic. exact IH.
-    + rewrite to_object_other. apply go_other_no_panic. exact IH.
+    + destruct (N.le_gt_cases max_call_depth depth) as [Hd|Hd].
+      * rewrite (proj1 (too_deep_is_null o f depth _ 0 [] Hd)). discriminate.
+      * rewrite to_object_iface by exact Hd. apply go_iface_no_panic. apply IH.
+    + destruct (N.le_gt_cases max_call_depth depth) as [Hd|Hd].
+      * rewrite (proj2 (too_deep_is_null o f depth [] _ _ Hd)). discriminate.
+      * rewrite to_object_other by exact Hd. apply go_other_no_panic. apply IH.
 Qed.
 
 (* ------------------------------------------------------------------ *)
@@ -143,7 +162,7 @@ Definition conv_fields :=
     match l with
     | [] => Some (Some (rev acc))
     | (k, x) :: l' =>
-        match to_object o 64 x with
+        match to_object o (N.to_nat max_call_depth + 8) 0 x with
         | Some (CVal v) => go l' ((k, v) :: acc)
         | Some CPanic => Some None
         | None => None
@@ -151,7 +170,7 @@ Definition conv_fields :=
     end.
 
 Lemma conv_fields_ok : forall (fs : list (str * hostval)) (vs : list (str * value)),
-  Forall2 (fun f v => fst f = fst v /\ to_object o 64 (snd f) = Some (CVal (snd v))) fs vs ->
+  Forall2 (fun f v => fst f = fst v /\ to_object o (N.to_nat max_call_depth + 8) 0 (snd f) = Some (CVal (snd v))) fs vs ->
   forall acc, conv_fields fs acc = Some (Some (rev acc ++ vs)).
 Proof.
   intros fs vs H. induction H as [|[k x] [k' v] fs vs [Hk Hx] _ IH]; intro acc; cbn [conv_fields].
@@ -162,11 +181,11 @@ Qed.
 
 End Panics.
 
-Lemma conversion_never_panics : forall o fuel h, to_object o fuel h <> Some CPanic.
+Lemma conversion_never_panics : forall o fuel depth h, to_object o fuel depth h <> Some CPanic.
 Proof. exact conversion_never_panics_o. Qed.
 
 Lemma struct_fields : forall o (fs : list (str * hostval)) (vs : list (str * value)),
-  Forall2 (fun f v => fst f = fst v /\ to_object o 64 (snd f) = Some (CVal (snd v))) fs vs ->
+  Forall2 (fun f v => fst f = fst v /\ to_object o (N.to_nat max_call_depth + 8) 0 (snd f) = Some (CVal (snd v))) fs vs ->
   host_fields o (HStruct fs) = Some (Some vs) /\ host_fields o (HPtr (HStruct fs)) = Some (Some vs) /\
   host_fields o (HMapIface fs) = Some (Some vs).
 Proof.
